@@ -56,7 +56,10 @@ partial def getTree (j : Json) : R UTree := do
   | "node" => do
     let op ← getStr a[1]!
     let args ← (← getArr a[2]!).toList.mapM getTree
-    pure (UTree.node op args)
+    match args with
+    | [x] => pure (UTree.un op x)
+    | [x, y] => pure (UTree.bin op x y)
+    | _ => throw "node arity"
   | t => throw s!"unknown tree tag {t}"
 
 /-- {"cmd":"uparse","s":..} → model parse, reference-grammar parse, raw tokens accepted? -/
